@@ -100,7 +100,13 @@ impl Runner {
             self.rec.comment(&format!("case {}", case.pretty(6)));
             self.logged_cases += 1;
         }
-        let r = (self.check)(&case, &mut self.rec);
+        // a panic escaping the oracle itself (e.g. inside a long un-recorded run) is a finding, not a crash
+        let chk = self.check;
+        let recref = &mut self.rec;
+        let r = match std::panic::catch_unwind(std::panic::AssertUnwindSafe(|| chk(&case, recref))) {
+            Ok(r) => r,
+            Err(_) => Some(Failure { key: format!("{}:panic", case.ind), msg: "a call into the crate panicked (caught around the whole case)".into() }),
+        };
         // free instances
         self.rec.insts.clear();
         self.rec.taint.clear();
@@ -110,6 +116,14 @@ impl Runner {
         if self.samples.len() < 6 && (self.evaluations.is_power_of_two() || self.samples.is_empty()) {
             self.samples.push(case.pretty(12));
         }
+        // a panic inside next/reset is C12's (and, for constructors, C11's) violation: the other oracles skip such a case
+        let r = match r {
+            Some(f) if f.key.ends_with(":panic") && case.prop != "C12" => {
+                self.count("panic-cases-skipped");
+                None
+            }
+            o => o,
+        };
         if let Some(f) = r {
             self.count("failures");
             if self.seen_keys.insert(f.key.clone()) {
